@@ -209,6 +209,17 @@ def run(facts, tr, rep):
             neg = not neg
             nd = peel(nd[2])
         ok_all, saw = verdict_leaves(nd)
+        if saw and ok_all:
+            # a constant `true` among the verdict's origins is the "no predicate configured" default only: its site is
+            # reached only through the None edge of a test on the predicate field (not, say, for one particular strategy)
+            from ..util import _value_sites
+            vs = _value_sites(tr, b, e["sw"].cond, (e["bb"], len(g.stmts(e["bb"])))) or []
+            for (bb_, _ix, nd_) in vs:
+                nd_ = peel(nd_)
+                if nd_[0] == "const" and nd_[1] == "true" and len(vs) > 1:
+                    des = dominating_edges(tr, b, bb_)
+                    if not any(x["kind"] == "enum" and x["label"] == "None" and pred_field(x["node"]) for x in des):
+                        ok_all = False
         if saw:
             holds = (e["label"] == "true") != neg
             gate_ok = ok_all and holds
